@@ -168,7 +168,9 @@ func (ni *NodeInfo) NonAllocatedResource(resourceType v1.ResourceName) float64 {
 func (ni *NodeInfo) IsTaskAllocatable(task *pod_info.PodInfo) bool {
 	if isBestEffortJob := task.ResReq.IsEmpty() &&
 		(len(task.GetAllStorageClaims()) == 0) && !task.IsMemoryRequest(); isBestEffortJob {
-		return true
+		// A best-effort pod still occupies a pod slot: it can be bound only onto an idle slot,
+		// not onto one that is still held by a releasing pod.
+		return task.ResReq.Get(v1.ResourcePods) <= ni.Idle.Get(v1.ResourcePods)
 	}
 
 	if allocatable := ni.isTaskAllocatableOnNonAllocatedResources(task, ni.Idle); !allocatable {
